@@ -204,6 +204,8 @@ def bits(x, shift, width):
         return x
     if isinstance(x, Op) and x.op == "byte" and shift == 0 and width >= 8:
         return x
+    if isinstance(x, Op) and x.op == "shr" and isinstance(x.args[1], int):
+        return Op("bits", x.args[0], x.args[1] + shift, width)
     return Op("bits", x, shift, width)
 
 
@@ -228,7 +230,7 @@ def seq_like(x):
         return True
     if isinstance(x, Op) and x.op == "attr" and x.args[1] in SEQ_ATTRS:
         return True
-    if isinstance(x, Op) and x.op == "call" and x.args and x.args[0] in ("tuple", "list", "str", "bytes", "repr", "sorted"):
+    if isinstance(x, Op) and x.op == "call" and x.args and x.args[0] in ("tuple", "list", "str", "bytes", "repr", "sorted", "chr", "hex", "oct", "bin", "format", "bytearray", "unichr"):
         return True
     return False
 
@@ -320,6 +322,8 @@ def binop(op, a, b):
                 return bits(a, b, max(a.args[2] - b, 0)) if a.args[2] > b else 0
             if wa is not None:
                 return bits(a, b, wa - b) if wa > b else 0
+            if isinstance(a, Op) and a.op == "shr" and isinstance(a.args[1], int):
+                return Op("shr", a.args[0], a.args[1] + b)
             return Op("shr", a, b)
         return Op("shr", a, b)
     if t is ast.Mod:
@@ -475,6 +479,7 @@ class Spec(object):
         self.frames = []
         self.gen_elem_hook = None
         self.byte_hook = None
+        self.tainted = {}  # id(container) -> Sym standing for "this container after symbolic mutation"
 
     # ------------------------------------------------------------------ helpers
     def fresh(self, prefix, kind=None, info=None):
@@ -721,7 +726,7 @@ class Spec(object):
             except Exception as ex:
                 return Top("slice %s" % type(ex).__name__)
         i = self.ev(e.slice, env, g)
-        return self.index(v, i)
+        return self.index(self.vis(v), i)
 
     def index(self, v, i):
         if isinstance(v, Guard) and not is_sym(i):
@@ -960,7 +965,23 @@ class Spec(object):
             return "%s.%s" % (show(f.args[0]), f.args[1])
         return getattr(f, "__name__", None) or show(f)
 
+    def vis(self, v):
+        """a concrete container that was mutated under a symbolic guard / inside a summarised loop is no longer known"""
+        if self.tainted and isinstance(v, (list, dict, set, bytearray)) and id(v) in self.tainted:
+            return self.tainted[id(v)]
+        return v
+
+    def taint(self, obj):
+        if id(obj) not in self.tainted:
+            kind = "list" if isinstance(obj, (list, bytearray)) else ("dict" if isinstance(obj, dict) else "set")
+            self.tainted[id(obj)] = Sym("mutated#%d" % (len(self.tainted) + 1), kind, {"identity": obj})
+            self._keep = getattr(self, "_keep", [])
+            self._keep.append(obj)
+
     def call(self, f, args, kw, node=None, env=None):
+        if self.tainted:
+            args = [self.vis(a) for a in args]
+            kw = {k: self.vis(v) for k, v in kw.items()}
         name = self.fname(f)
         for h in self.hooks:
             r = h(self, name, f, args, kw, node)
@@ -1107,6 +1128,7 @@ class Spec(object):
             if self_obj is not None and isinstance(self_obj, (list, dict, set)) and name in (
                     "append", "extend", "add", "update", "insert", "remove", "pop", "clear", "setdefault"):
                 self.effect("mutate", name, show(self_obj)[:40], tuple(args), node=node)
+                self.taint(self_obj)
                 return None
             if self_obj is not None and isinstance(self_obj, dict) and name == "get" and not is_sym(args[0]):
                 return self_obj.get(*args)
@@ -1124,6 +1146,7 @@ class Spec(object):
         if self.guards and self_obj is not None and isinstance(self_obj, (list, dict, set, bytearray)) and name in (
                 "append", "extend", "add", "update", "insert", "remove", "pop", "clear", "setdefault", "sort", "reverse"):
             self.effect("mutate", name, show(self_obj)[:40], tuple(args), node=node)
+            self.taint(self_obj)
             return None
         if any(isinstance(a, (FuncRef, BoundMethod, ClassRef, Instance, ModuleNS)) for a in list(args) + list(kw.values())):
             if f in (isinstance, hasattr, getattr, callable, id, type, repr, str):
@@ -1540,7 +1563,7 @@ class Spec(object):
         return None
 
     def stmt_for(self, s, env, g):
-        it = self.ev(s.iter, env, g)
+        it = self.vis(self.ev(s.iter, env, g))
         concrete = not is_sym(it) and hasattr(it, "__iter__") and not isinstance(it, (Instance, FuncRef, ClassRef, ModuleNS))
         if concrete and isinstance(it, (dict, set, frozenset)) and len(it) > 64:
             concrete = False
